@@ -166,6 +166,10 @@ def jobs(tier, seed):
         fx = {"0": 1, "1": 1} if sh == "G-WIDE" else {}
         out.append(dict(case="lm", params=dict(shape=sh, contexts=contexts, chain=[["a", "b"]], lms=["earley"], heap="nondet", fixed=fx), budget=dict(max_paths=6000)))
         out.append(dict(case="lm", params=dict(shape=sh, contexts=contexts, chain=[["a", "b"]], lms=["rescaled"], heap="nondet", fixed=fx), budget=dict(max_paths=6000)))
+    # a longer context on a tiny skeleton: the product of per-column rescale factors must cancel exactly
+    n_long = 10 if quick else 24
+    for lmname in ["rescaled", "earley"]:
+        out.append(dict(case="lm", params=dict(shape="G-S1", contexts=[["a"] * n_long], chain=[["a"] * (n_long // 2)], lms=[lmname], fixed={"0": 1, "1": 1, "2": 1}), timeout=1500))
     out.append(dict(case="lm", params=dict(shape="G-S1", contexts=[[], ["a"]], chain=[["a"]], lms=["earley"], canary=True)))
     seeds = [1 + seed % 1000] if quick else [0, 1 + seed % 1000]
     return [dict(j, hashseed=s) for j in out for s in (seeds if (not j["params"].get("canary") and j["params"].get("heap") != "nondet") else seeds[:1])]
